@@ -34,7 +34,13 @@ class Interp:
             b = self.key(n.children[0], st)
             if b is None:
                 return None
-            return "%s%s%s" % (b, "->" if n.arrow else ".", n.name)
+            arrow = n.arrow
+            inner = n.children[0]
+            while inner is not None and inner.k in ("ParenExpr", "ImplicitCastExpr") and inner.children:
+                inner = inner.children[0]
+            if inner is not None and inner.k == "MemberExpr" and inner.d.get("name") == "":
+                arrow = inner.arrow      # access through an anonymous struct/union member
+            return "%s%s%s" % (b, "->" if arrow else ".", n.name)
         if n.k == "ArraySubscriptExpr":
             b = self.key(n.children[0], st)
             i = self.rv(n.children[1], st)
